@@ -16,7 +16,8 @@ props.prop(
                 'and region coordinates must be homogeneous.',
     decides='dispatch exhaustiveness for range / rectangular / categorical / circular / annulus / elliptical / polygonal regions '
             'on all four axis-kind combinations; x-things paired with x-things in the range branch, the rectangle decomposition, '
-            'the mixed categorical/numerical branch (incl. the swapped polygon unpacking) and the two-categorical branch',
+            'the mixed categorical/numerical branch (incl. the swapped polygon unpacking) and the two-categorical branch; that the '
+            'polygon helpers apply no rounding or absolute tolerance to coordinate values',
     not_decided='where region edges fall between category positions (rounding in from_range, polygon/line intersections)',
     assumptions=['region classes outside glue/ are not seen'])
 
